@@ -123,12 +123,17 @@ pub fn model(events: &[E], server_under_test: bool) -> (Expect, Option<usize>) {
                         CtlFrame::SettingsReservedId | CtlFrame::SettingsDupId => return close(&[H3_SETTINGS_ERROR]),
                         CtlFrame::SettingsTruncated => return close(&[H3_FRAME_ERROR, H3_SETTINGS_ERROR]),
                         CtlFrame::Data | CtlFrame::Headers => return close(&[H3_MISSING_SETTINGS, H3_FRAME_UNEXPECTED]),
-                        // A frame the endpoint ignores (reserved GREASE type, or a type it does not
-                        // implement) ahead of SETTINGS: RFC 9114 6.2.1 read strictly makes this
-                        // H3_MISSING_SETTINGS; skipping it and still requiring SETTINGS as the first
-                        // *interpreted* frame is the tolerant reading. Both are accepted; the
-                        // expectation for the rest of the sequence is evaluated without this event.
-                        CtlFrame::Grease | CtlFrame::Goaway => {
+                        // A reserved (GREASE) type ahead of SETTINGS: RFC 9114 6.2.1 - "If the first frame
+                        // of the control stream is any other frame type, this MUST be treated as a
+                        // connection error of type H3_MISSING_SETTINGS"; the property's mechanism list
+                        // names the rule (first frame must be SETTINGS, later only GREASE).
+                        CtlFrame::Grease => return close(&[H3_MISSING_SETTINGS]),
+                        // A type the endpoint does not implement at all (GOAWAY, MAX_PUSH_ID ...) is
+                        // dropped by the frame parser below the layer where that rule lives; RFC 9114
+                        // section 9 words this case as SHOULD ("an unknown frame type does not satisfy
+                        // that requirement and SHOULD be treated as an error"). Both reactions are
+                        // accepted; the rest of the sequence is evaluated without this event.
+                        CtlFrame::Goaway => {
                             let mut rest: Vec<E> = events[..i].to_vec();
                             rest.extend_from_slice(&events[i + 1..]);
                             return match model(&rest, server_under_test) {
